@@ -10,8 +10,11 @@ the two user-code bodies (progress callback, tensor.tofile).  The harness forces
 (`writer.run`) steps the model `IrVerif.Writer` along the same labels; after every step both sides
 report program counters of every tensor, queue, futures, idle / exited pool threads, callback lock,
 tensor locks, in-flight counter, oversized flag, shutdown flag, callback log and the set of enabled
-labels; at the end the file bytes.  Schedules: `writer.cover` (every transition of the reachable
-state graph of a small configuration, exhaustive) + random walks on larger configurations.
+labels; at the end the file bytes.  Schedules: `writern.cover` (transition coverage of the reachable
+state graph of small configurations: every edge is executed once, not every interleaving) + random
+walks on larger configurations.  NOTE: the controlled runs exercise the repo's *use* of the primitives
+against the harness's own reimplementation of them; the real primitives run in the OS-scheduled runs
+and in `primitive_checks`.
 
 Oracle (independent of the model, on the real run): callback once per started tensor and never
 concurrent; same tensor object never evaluated concurrently; bytes identical to the serial save;
@@ -65,15 +68,38 @@ THEOREMS = [
     "IrVerif.WriterN.wfb_sound",
 ]
 ASSUMPTIONS = [
-    "threading.Lock/Condition and ThreadPoolExecutor/as_completed are modelled by their documented semantics "
-    "(mutual exclusion, wait set + notify_all, FIFO work queue, shutdown(wait, cancel_futures)); the primitives "
-    "themselves and the GIL are trusted",
+    "CONTROLLED RUNS DO NOT USE THE REAL PRIMITIVES: inside onnx_ir.external_data threading.Lock/Condition and "
+    "ThreadPoolExecutor/as_completed are replaced by the harness's own baton-passing reimplementation (workers spawned "
+    "eagerly, as_completed = a picker over completed futures, shutdown(cancel_futures) cancels exactly the queued "
+    "jobs), written from the documented semantics — the same reading the Lean models transcribe.  What is compared "
+    "with the models is therefore the repo's *use* of the primitives, not the primitives.  The real primitives run in "
+    "the OS-scheduled runs (oracle only) and in primitive_checks() (bounded concurrency, FIFO start order, "
+    "shutdown with/without cancel_futures, stored exceptions, as_completed once-each, Condition wait/notify_all/"
+    "wait_for, non-reentrant Lock), executed on every run; the GIL and the primitives' implementation are trusted",
+    "the pool sizes compared with the model are the max_workers values the repo passes to its executors "
+    "(shard_workers / workers_per_shard arithmetic) against the harness's independent computation",
     "granularity: one model step per blocking operation or user-code body; a critical section of the condition's "
     "own lock contains no blocking operation and is one step",
-    "pool threads are interchangeable (an idle pool thread has no identity in the model)",
+    "pool threads are interchangeable in the models; in the controlled runs the idle thread that takes a job is a "
+    "seeded random choice",
     "two models: IrVerif.Writer (flat: single-file parallel writer; shard drivers with serial writers) and the "
     "general IrVerif.WriterN (a tree of pools: also shard drivers that each run a parallel writer, "
     "workers_per_shard >= 2); every controlled run is compared with the general model, flat runs with both",
+    "'exhaustive' scopes are TRANSITION coverage of the model's reachable state graph (every edge executed by the "
+    "real writer along some complete schedule), not all interleavings; the quick tier explores only a 5000-state part "
+    "of the nested configuration (72 197 states), the thorough tier all of it",
+    "materialised bytes = sizes of the reservations held between budget acquire and release (what the budget "
+    "controls); memory a user callback or a LazyTensor cache keeps is outside; the callback is handed the tensor "
+    "before the tensor lock is taken (D170, recorded)",
+    "Layout (pairwise disjoint ranges) and Prealloc (zero start image no longer than the largest end) are hypotheses "
+    "of the byte theorems, checked by the driver for every generated configuration (layoutb/preallocb); they are not "
+    "derived from C07's theorems inside Lean; `size` is the budget reservation (for ExternalTensor the copy chunk), "
+    "not necessarily data.length",
+    "not driven by the controlled scheduler (OS-scheduled runs + oracle only): callback=None, tensors without "
+    "tofile, real ir.Tensor / ExternalTensor inputs; capacity < 1 is rejected by _validate_write_options before the "
+    "writer starts, so max(capacity, 1) cannot be reached through the entry point used here",
+    "failures are injected as RuntimeError or as a BaseException that is not an Exception; which of several "
+    "failures the caller sees is not part of the claim (C09_error_reported)",
 ]
 
 STEP_TIMEOUT = 40.0  # one controlled step (microseconds of work) not reaching its next park point
@@ -83,6 +109,11 @@ STEP_TIMEOUT = 40.0  # one controlled step (microseconds of work) not reaching i
 OS_STALL_TICKS = 300
 OS_CAP_TICKS = 2500  # absolute cap of one run
 OS_WALL_CAP = 300.0  # safety net in seconds
+
+
+class _Boom(BaseException):
+    """Injected failure that is *not* an `Exception` (like KeyboardInterrupt): the writer's `except BaseException`
+    (external_data.py 643) must still stop the pool before the exception leaves."""
 
 
 class _Abort(BaseException):
@@ -538,6 +569,7 @@ class RunState:
         self.problems = []  # (signature, text)
         self.budgets = []
         self.progress = 0  # bumped by every callback / tofile entry and exit
+        self.cb_objs = {}  # obj -> callbacks currently looking at it (cases with "touch": the callback evaluates)
 
     def problem(self, sig, text):
         with self.meta:
@@ -572,6 +604,10 @@ class FTensor:
         with st.meta:
             st.progress += 1
             st.active[self.o] = st.active.get(self.o, 0) + 1
+            if st.case.get("touch") and st.cb_objs.get(self.o, 0) > 0:
+                st.problems.append(("callback-evaluates-during-write",
+                                    f"tensor object {self.o} is written while the callback of another of its uses "
+                                    "is evaluating it"))
             if st.active[self.o] > 1:
                 st.problems.append(("tensor-concurrent", f"tensor object {self.o} evaluated by two threads at once"))
             st.active_bytes += self.nbytes
@@ -585,6 +621,8 @@ class FTensor:
             elif st.jitter is not None:
                 time.sleep(st.jitter())
             if fails:
+                if st.case["tensors"][task].get("exc") == "base":
+                    raise _Boom(f"injected write failure for tensor {task}")
                 raise RuntimeError(f"injected write failure for tensor {task}")
             file.write(self.data)
         finally:
@@ -604,6 +642,14 @@ def make_callback(st_ref):
             st.in_cb += 1
             if st.in_cb > 1:
                 st.problems.append(("callback-concurrent", "progress callback entered by two threads at once"))
+            o = getattr(tensor, "o", None)
+            if st.case.get("touch") and o is not None:
+                # this callback evaluates the tensor it is given (the callback runs before the tensor lock is taken)
+                st.cb_objs[o] = st.cb_objs.get(o, 0) + 1
+                if st.active.get(o, 0) > 0:
+                    st.problems.append(("callback-evaluates-during-write",
+                                        f"the callback evaluates tensor object {o} while another use of it is "
+                                        "being written"))
         try:
             if st.sched is not None:
                 st.sched.park(("body", "cb"))
@@ -615,14 +661,60 @@ def make_callback(st_ref):
         finally:
             with st.meta:
                 st.in_cb -= 1
+                if st.case.get("touch") and o is not None:
+                    st.cb_objs[o] -= 1
         if st.case["tensors"][info.index]["cbFails"]:
+            if st.case["tensors"][info.index].get("exc") == "base":
+                raise _Boom(f"injected callback failure for tensor {info.index}")
             raise RuntimeError(f"injected callback failure for tensor {info.index}")
 
     return cb
 
 
-def build_tensors(case, st_ref):
-    objs = [FTensor(st_ref, o, d["size"]) for o, d in enumerate(case["objs"])]
+class FTensorNoToFile:
+    """TensorProtocol object from before `tofile` existed (external_data.py 392-397 `file.write(tobytes())`)."""
+
+    def __init__(self, st_ref, o, size):
+        self._f = FTensor(st_ref, o, size)
+        for k in ("name", "dtype", "shape", "nbytes", "size", "doc_string", "metadata_props", "meta", "o", "data"):
+            setattr(self, k, getattr(self._f, k))
+
+    def tobytes(self):
+        # the same bookkeeping as FTensor.tofile, around the materialisation
+        class _Sink:
+            def __init__(self):
+                self.b = b""
+
+            def write(self, d):
+                self.b += d
+
+        sink = _Sink()
+        self._f.tofile(sink)
+        return sink.b
+
+
+def build_tensors(case, st_ref, src_dir=None):
+    """One Python object per tensor *object* of the case.  kind (OS-scheduled runs only): "fake" (FTensor, default),
+    "notofile", "ir" (a real ir.Tensor over numpy), "external" (a real ExternalTensor backed by a file in src_dir:
+    `_reservation_bytes` takes its chunk branch)."""
+    import numpy as np
+    import onnx_ir as ir
+
+    objs = []
+    for o, d in enumerate(case["objs"]):
+        kind = d.get("kind", "fake")
+        if kind == "notofile":
+            objs.append(FTensorNoToFile(st_ref, o, d["size"]))
+        elif kind == "ir":
+            objs.append(ir.Tensor(np.frombuffer(obj_bytes(o, d["size"]), dtype=np.uint8).copy(), name=f"t{o}"))
+        elif kind == "external" and src_dir is not None:
+            fn = f"src{o}.bin"
+            with open(os.path.join(src_dir, fn), "wb") as f:
+                f.write(b"\x07" * 3 + obj_bytes(o, d["size"]))
+            objs.append(ir.ExternalTensor(fn, 3, d["size"], ir.DataType.UINT8, shape=ir.Shape([d["size"]]),
+                                          name=f"t{o}", base_dir=src_dir))
+        else:
+            objs.append(FTensor(st_ref, o, d["size"]))
     return [objs[t["obj"]] for t in case["tensors"]]
 
 
@@ -664,37 +756,50 @@ def shards_of(case):
     return out
 
 
+def single_file(case):
+    """Name of the data file when the save writes one file with the single-file parallel writer: mode "parallel",
+    or a sharded save whose tensors all fit in one shard (`len(shard_jobs) == 1`, external_data.py 897-911: no shard
+    pool, `max_workers` goes to the one inner writer).  None otherwise."""
+    if case["mode"] == "parallel":
+        return "w.data"
+    if len(shards_of(case)) == 1:
+        from onnx_ir import external_data as ed
+
+        return ed._get_shard_filename("w.data", 1, 1)
+    return None
+
+
 def model_cfg(case):
-    """The Lean configuration of a case; None when the case is outside the modelled modes."""
+    """The configuration of the flat Lean model `IrVerif.Writer`; None when the case is not one of the flat
+    modes (single-file parallel writer; shard drivers with serial writers)."""
     sizes = case_sizes(case)
     n = len(sizes)
     W = case["workers"]
-    tens = []
-    if case["mode"] == "parallel":
+
+    def tensor(i, job, file, off):
+        t = case["tensors"][i]
+        return dict(obj=t["obj"], size=sizes[i], fails=t["fails"], cbFails=t["cbFails"], job=job, file=file,
+                    off=off, data=list(obj_bytes(t["obj"], sizes[i])))
+
+    if single_file(case) is not None:
         if not (W > 1 and n > 1):
             return None
-        off = 0
-        for i, t in enumerate(case["tensors"]):
-            tens.append(dict(obj=t["obj"], size=sizes[i], fails=t["fails"], cbFails=t["cbFails"], job=i, file=0,
-                             off=off, data=list(obj_bytes(t["obj"], sizes[i]))))
-            off += sizes[i]
+        offs, total = layout_offsets(case, list(range(n)))
         return dict(workers=W, capacity=max(case["cap"], 1), nObjs=len(case["objs"]), mode="parallel",
-                    tensors=tens, jobStarts=list(range(n)), files=[[0] * off])
+                    tensors=[tensor(i, i, 0, offs[i]) for i in range(n)], jobStarts=list(range(n)),
+                    files=[[0] * total])
     shards = shards_of(case)
     if not (W > 1 and len(shards) > 1):
         return None
     sw = min(W, len(shards))
-    if max(1, (W - sw) // sw) != 1:
-        return None  # nested parallel writers: not modelled
-    starts = []
+    wps = max(1, (W - sw) // sw)
+    if wps > 1 and any(len(g) > 1 for g in shards):
+        return None  # some shard driver runs a parallel writer: general model only
+    starts, tens = [], []
     for j, g in enumerate(shards):
         starts.append(g[0])
-        off = 0
-        for i in g:
-            t = case["tensors"][i]
-            tens.append(dict(obj=t["obj"], size=sizes[i], fails=t["fails"], cbFails=t["cbFails"], job=j, file=j,
-                             off=off, data=list(obj_bytes(t["obj"], sizes[i]))))
-            off += sizes[i]
+        offs, _total = layout_offsets(case, g)
+        tens += [tensor(i, j, j, off) for i, off in zip(g, offs)]
     return dict(workers=sw, capacity=max(case["cap"], 1), nObjs=len(case["objs"]), mode="shards",
                 tensors=tens, jobStarts=starts, files=[[] for _ in shards])
 
@@ -712,16 +817,13 @@ def general_cfg(case):
                     off=off, data=list(obj_bytes(t["obj"], sizes[i])))
 
     base = dict(capacity=max(case["cap"], 1), nObjs=len(case["objs"]))
-    if case["mode"] == "parallel":
+    if single_file(case) is not None:
         if not (W > 1 and n > 1):
             return None
-        tens, off = [], 0
-        for i in range(n):
-            tens.append(tensor(i, i, 0, off))
-            off += sizes[i]
-        return dict(base, tensors=tens,
+        offs, total = layout_offsets(case, list(range(n)))
+        return dict(base, tensors=[tensor(i, i, 0, offs[i]) for i in range(n)],
                     pools=[dict(size=W, asCompleted=True, jobs=list(range(n)), innerCb=False, parent=None)],
-                    jobs=[dict(pool=0, start=i, sub=None) for i in range(n)], files=[[0] * off])
+                    jobs=[dict(pool=0, start=i, sub=None) for i in range(n)], files=[[0] * total])
     shards = shards_of(case)
     S = len(shards)
     if not (W > 1 and S > 1):
@@ -733,26 +835,22 @@ def general_cfg(case):
     tens = [None] * n
     files = []
     for j, g in enumerate(shards):
-        total = sum(sizes[i] for i in g)
+        offs, total = layout_offsets(case, g)
         if wps > 1 and len(g) > 1:
             # the shard driver runs `_write_parallel`: an inner pool whose jobs are the shard's tensors
             q = len(pools)
             inner = []
-            off = 0
-            for i in g:
+            for i, off in zip(g, offs):
                 jid = len(jobs)
                 jobs.append(dict(pool=q, start=i, sub=None))
                 inner.append(jid)
                 tens[i] = tensor(i, jid, j, off)
-                off += sizes[i]
             pools.append(dict(size=wps, asCompleted=True, jobs=inner, innerCb=True, parent=j))
             jobs[j] = dict(pool=0, start=g[0], sub=q)
             files.append([0] * total)
         else:
-            off = 0
-            for i in g:
+            for i, off in zip(g, offs):
                 tens[i] = tensor(i, j, j, off)
-                off += sizes[i]
             jobs[j] = dict(pool=0, start=g[0], sub=None)
             files.append([])
     return dict(base, tensors=tens, pools=pools, jobs=jobs, files=files)
@@ -824,7 +922,8 @@ def clean_stale_dirs(max_age_s=1800):
 
 
 def serial_reference(case):
-    """Files written by the serial save of the same tensors (no failures injected)."""
+    """The serial save (max_workers=None) of the same tensors, no failures injected: {"files": name -> bytes,
+    "result": canon_result of the returned ExternalTensors}."""
     clean = dict(case, tensors=[dict(t, fails=False, cbFails=False) for t in case["tensors"]])
     st_ref = [RunState(clean)]
     tensors = build_tensors(clean, st_ref)
@@ -1150,7 +1249,7 @@ def oracle(case, res, serial, mode_tag, out):
         return
     if res["max_active_bytes"] > cap + max(sizes):
         out.fail(f"{mode_tag}:bytes-bound", f"materialised bytes {res['max_active_bytes']} > budget {cap} + largest {max(sizes)}", info)
-    for t in res["tofile_calls"]:
+    for t in ([] if case.get("nocb") else res["tofile_calls"]):
         if t is None or t not in log:
             out.fail(f"{mode_tag}:write-without-callback", f"tensor {t} written without its callback having been called", info)
     q = res["at_return"]
@@ -1164,7 +1263,7 @@ def oracle(case, res, serial, mode_tag, out):
     if res["outcome"] == "returned":
         if anyfail:
             out.fail(f"{mode_tag}:error-swallowed", "a tensor failed but the save returned normally", info)
-        if sorted(log) != list(range(n)):
+        if not case.get("nocb") and sorted(log) != list(range(n)):
             out.fail(f"{mode_tag}:callback-missing", f"successful save but callback log is {log}", info)
         if res["files"] != serial["files"]:
             out.fail(f"{mode_tag}:bytes-differ", "files differ from the serial save", info)
@@ -1198,7 +1297,8 @@ def run_os(case, seed, stall_ticks=OS_STALL_TICKS):
     delays = [0.0, 0.0, 0.0002, 0.001]
     st = RunState(case, sched=None, jitter=lambda: delays[rng.randrange(len(delays))])
     st_ref = [st]
-    tensors = build_tensors(case, st_ref)
+    src = tempfile.mkdtemp(prefix="c09o-src-", dir=_TMP_ROOT)
+    tensors = build_tensors(case, st_ref, src)
     budgets = []
     orig = ed._ByteBudget
 
@@ -1213,7 +1313,7 @@ def run_os(case, seed, stall_ticks=OS_STALL_TICKS):
 
     def body():
         try:
-            ext = call_writer(case, tensors, make_callback(st_ref), d, case["workers"])
+            ext = call_writer(case, tensors, None if case.get("nocb") else make_callback(st_ref), d, case["workers"])
             res["result"] = canon_result(ext)
             res["outcome"] = "returned"
         except BaseException as e:  # noqa: BLE001
@@ -1261,6 +1361,7 @@ def run_os(case, seed, stall_ticks=OS_STALL_TICKS):
     finally:
         ed._ByteBudget = orig
         shutil.rmtree(d, ignore_errors=True)  # also after a hang: blocked threads write nothing any more
+        shutil.rmtree(src, ignore_errors=True)
     res["log"] = list(st.log)
     res["max_active_bytes"] = st.max_active_bytes
     res["tofile_calls"] = list(st.tofile_calls)
@@ -1298,6 +1399,11 @@ def fixed_cases(thorough=False):
          dict(mode="shards", workers=6, cap=4, shard=7, objs=[dict(size=2), dict(size=5), dict(size=2)],
               tensors=[T(0), T(1), T(0), T(2)])),
     ]
+    nested.append(
+        # aligned layout (alignment=1 -> 4096): holes between the tensors
+        ("par-2w-2t-aligned",
+         dict(mode="parallel", workers=2, cap=4, shard=None, align=1, athr=1, objs=[dict(size=3), dict(size=2)],
+              tensors=[T(0), T(1)])))
     return (extra if thorough else []) + nested + [
         # 2 workers, 3 tensors: one oversized (6 > 4), one object shared by tensors 0 and 2, tensor 1 fails
         ("par-2w-3t-oversized-shared-failing",
@@ -1325,7 +1431,7 @@ def fixed_cases(thorough=False):
     ]
 
 
-def random_case(rng, big: bool, allow_nested=False):
+def random_case(rng, big: bool, allow_nested=False, os_only=False):
     mode = "parallel" if rng.random() < 0.65 else "shards"
     n = rng.randint(2, 7 if big else 5)
     nobj = rng.randint(max(1, n - 2), n)
@@ -1340,13 +1446,34 @@ def random_case(rng, big: bool, allow_nested=False):
     for i in failing:
         if not tensors[i]["fails"]:
             tensors[i]["cbFails"] = True
+        if rng.random() < 0.3:
+            tensors[i]["exc"] = "base"  # a BaseException that is not an Exception
     workers = rng.randint(2, 5 if big else 4)
     case = dict(mode=mode, workers=workers, cap=cap, shard=None, objs=objs, tensors=tensors)
+    if rng.random() < 0.1 and len({t["obj"] for t in tensors}) < n:
+        case["touch"] = True  # the callback evaluates the tensor it is handed (D170)
+    if rng.random() < 0.08:
+        # aligned layout: offsets of tensors larger than the threshold are multiples of max(4096, alignment),
+        # the gaps are holes (serial writer) / preallocated zeros (parallel writer)
+        case["align"] = rng.choice([1, 4096])
+        case["athr"] = rng.choice([0, 1, 2, 4])
     if mode == "shards":
         total = sum(case_sizes(case))
-        case["shard"] = max(1, rng.choice([total // 2, total // 3, max(s["size"] for s in objs), 2, 4]) or 1)
+        case["shard"] = max(1, rng.choice([total // 2, total // 3, max(s["size"] for s in objs), 2, 4, total + 1]) or 1)
         if allow_nested and rng.random() < 0.5:
             case["workers"] = rng.randint(6, 9)
+    if os_only:
+        # variations that the controlled scheduler does not drive: the default callback=None path (no callback
+        # lock, no `_locked_callback`), tensors without `tofile`, real ir.Tensor / ExternalTensor inputs
+        r2 = rng.random()
+        if r2 < 0.2 and nfail == 0:
+            case["nocb"] = True
+            case.pop("touch", None)
+        elif r2 < 0.45:
+            failing_objs = {t["obj"] for t in tensors if t["fails"]}
+            for o, d in enumerate(objs):
+                if o not in failing_objs and rng.random() < 0.6:
+                    d["kind"] = rng.choice(["notofile", "ir", "external"])
     return case
 
 
@@ -1425,8 +1552,8 @@ def _compare(part, name, case, gcfg, results, serial):
                 if o is None:
                     continue
                 mf = o["final"]["files"]
-                if case["mode"] == "parallel":
-                    expect = {"w.data": mf[0]} if r["outcome"] == "returned" else {}
+                if single_file(case) is not None:
+                    expect = {single_file(case): mf[0]} if r["outcome"] == "returned" else {}
                 else:
                     from onnx_ir import external_data as ed
 
@@ -1503,7 +1630,7 @@ def _work(item):
 
             rng = random.Random(item["seed"])
             for _ in range(item["count"]):
-                case = random_case(rng, item["big"], allow_nested=True)
+                case = random_case(rng, item["big"], allow_nested=True, os_only=True)
                 serial = serial_reference(case)
                 for rep in range(item["reps"]):
                     if _hang_seen(item):
@@ -1511,7 +1638,9 @@ def _work(item):
                     r = run_os_confirmed(case, rng.randrange(1 << 30), part)
                     nested = model_cfg(case) is None
                     part.case(["os", case, rep], nontrivial=True, os_mode=case["mode"], os_nested=nested,
-                              os_outcome=r["outcome"], os_workers=min(case["workers"], 9))
+                              os_outcome=r["outcome"], os_workers=min(case["workers"], 9),
+                              os_callback="none" if case.get("nocb") else "given",
+                              os_kinds="+".join(sorted({d.get("kind", "fake") for d in case["objs"]})))
                     oracle(case, r, serial, "os", part)
                     if r["status"] == "hang":
                         _mark_hang(item)
@@ -1521,6 +1650,117 @@ def _work(item):
 
         part["extra"]["crash"] = traceback.format_exc()[-1500:]
     return dict(part)
+
+
+# --------------------------------------------------------------------------- the real primitives
+
+
+def primitive_checks():
+    """The controlled runs use the harness's *own* Lock / Condition / executor / as_completed (the shim); the model
+    transcribes the same documented semantics.  These experiments run the REAL primitives of this interpreter and
+    check exactly the semantics both rely on.  Returns a list of violated assumptions (empty = confirmed)."""
+    import concurrent.futures as cf
+
+    bad = []
+    # 1. at most max_workers tasks run at once; jobs are started in submission order (FIFO work queue);
+    #    threads are spawned lazily (the shim spawns them eagerly: more idle threads, same semantics)
+    gate, lock, running, peak, order = _rt.Event(), _rt.Lock(), [0], [0], []
+
+    def job(k):
+        with lock:
+            order.append(k)
+            running[0] += 1
+            peak[0] = max(peak[0], running[0])
+        gate.wait(5)
+        with lock:
+            running[0] -= 1
+        return k
+
+    ex = cf.ThreadPoolExecutor(max_workers=2)
+    futs = [ex.submit(job, k) for k in range(5)]
+    time.sleep(0.05)
+    if len(getattr(ex, "_threads", [1, 2])) > 2:
+        bad.append("ThreadPoolExecutor started more than max_workers threads")
+    with lock:
+        started = list(order)
+    if started != [0, 1]:
+        bad.append(f"with 2 workers and 5 blocking jobs the jobs started are {started}, expected [0, 1] (FIFO, bounded)")
+    # 2. shutdown(cancel_futures=True) cancels exactly the pending futures; running ones complete
+    ex.shutdown(wait=False, cancel_futures=True)
+    st = [f.cancelled() for f in futs]
+    if st != [False, False, True, True, True]:
+        bad.append(f"shutdown(cancel_futures=True): cancelled flags {st}, expected only the pending jobs")
+    gate.set()
+    ex.shutdown(wait=True)
+    if peak[0] > 2 or [f.result() for f in futs[:2]] != [0, 1] or not all(f.done() for f in futs):
+        bad.append("running jobs did not complete normally after shutdown(cancel_futures=True)")
+    try:
+        ex.submit(job, 9)
+        bad.append("submit after shutdown did not raise")
+    except RuntimeError:
+        pass
+    # 3. shutdown(wait=True) returns only after every job (also the queued ones) has run; exceptions are stored
+    ex = cf.ThreadPoolExecutor(max_workers=1)
+    done = []
+
+    def job2(k):
+        time.sleep(0.005)
+        if k == 1:
+            raise KeyError(k)
+        done.append(k)
+
+    fs = [ex.submit(job2, k) for k in range(4)]
+    ex.shutdown(wait=True)
+    if done != [0, 2, 3] or not isinstance(fs[1].exception(), KeyError):
+        bad.append(f"shutdown(wait=True) without cancel: jobs run {done}, expected [0, 2, 3] and a stored KeyError")
+    # 4. as_completed yields every future exactly once, only completed ones, also the already finished ones
+    with cf.ThreadPoolExecutor(max_workers=3) as ex:
+        evs = [_rt.Event() for _ in range(3)]
+        fs = [ex.submit(lambda e=e, k=k: (e.wait(5), k)[1], ) for k, e in enumerate(evs)]
+        evs[2].set()
+        fs[2].result()
+        got = []
+        it = cf.as_completed(fs)
+        got.append(next(it))
+        if got[0] is not fs[2]:
+            bad.append("as_completed did not yield the already finished future first")
+        evs[0].set()
+        got.append(next(it))
+        evs[1].set()
+        got.append(next(it))
+        if [f.done() for f in got] != [True] * 3 or {id(f) for f in got} != {id(f) for f in fs} or next(it, None) is not None:
+            bad.append("as_completed did not yield every future exactly once, completed")
+    # 5. Condition: wait releases the lock and re-acquires it; notify_all wakes every waiter; wait_for re-checks
+    cond, state, woke = _rt.Condition(), {"go": False}, []
+
+    def waiter(k):
+        with cond:
+            cond.wait_for(lambda: state["go"])
+            woke.append(k)
+
+    ths = [_rt.Thread(target=waiter, args=(k,), daemon=True) for k in range(3)]
+    for t in ths:
+        t.start()
+    time.sleep(0.05)
+    with cond:  # possible only because the waiters released the lock
+        cond.notify_all()  # predicate still false: everybody must go back to waiting
+    time.sleep(0.05)
+    if woke:
+        bad.append("wait_for returned although its predicate was false")
+    with cond:
+        state["go"] = True
+        cond.notify_all()
+    for t in ths:
+        t.join(5)
+    if sorted(woke) != [0, 1, 2]:
+        bad.append(f"notify_all woke {sorted(woke)}, expected all three waiters")
+    # 6. Lock: mutual exclusion, non-reentrant
+    lk = _rt.Lock()
+    lk.acquire()
+    if lk.acquire(blocking=False):
+        bad.append("threading.Lock is re-entrant")
+    lk.release()
+    return bad
 
 
 # --------------------------------------------------------------------------- entry points
@@ -1537,6 +1777,10 @@ def run(ctx: Ctx) -> None:
 
     logging.getLogger("onnx_ir.external_data").setLevel(logging.ERROR)  # "oversized shard" warnings
     clean_stale_dirs()
+    for msg in primitive_checks():
+        ctx.disagree("assumed semantics of the real threading / concurrent.futures primitives not confirmed: " + msg,
+                     {"primitive": msg})
+    ctx.count("primitive_semantics_experiments", 6)
 
     ctx.rule = (
         "a case = (configuration, schedule actually executed by the real writer under the controlled scheduler); "
@@ -1569,8 +1813,9 @@ def run(ctx: Ctx) -> None:
             ctx.disagree(f"model reaches {cov['deadlocks']} non-terminal states without an enabled label", {"config": name})
         if not cov["truncated"]:
             ctx.exhaustive_scopes.append(
-                f"{name}: all {cov['edges']} transitions of the {cov['states']} reachable states "
-                f"({len(scheds)} complete schedules), each executed by the real writer")
+                f"{name}: transition coverage — each of the {cov['edges']} transitions of the {cov['states']} reachable "
+                f"model states is executed at least once by the real writer ({len(scheds)} complete schedules, one per "
+                f"non-tree edge / leaf of a DFS; NOT every interleaving)")
         else:
             scheds = ctx.rng.sample(scheds, min(len(scheds), ctx.pick(2500, 20000)))
         ctx.count(f"cover_schedules[{name}]", len(scheds))
